@@ -90,8 +90,10 @@ func (fr *Frame) cutLoop(b *ssa.BasicBlock, preds []*ssa.BasicBlock, ins []edgeI
 		for i, c := range invs {
 			ctx := fr.specCtx(st.heap, b)
 			ctx.override = entryVals
-			g := ctx.evalBool(c.Expr)
-			e.oblige(fmt.Sprintf("%s#%s:inv-init:%d", e.topKey(), label, i+1), "inv-init", st.reach, g, fr.pos(b.Instrs[0].Pos()), "loop invariant on entry: "+c.Src, c.Tags)
+			parts := ctx.evalSplit(c.Expr)
+			for j, g := range parts {
+				e.oblige(fmt.Sprintf("%s#%s:inv-init:%d/%d", e.topKey(), label, i+1, j+1), "inv-init", st.reach, g, fr.pos(b.Instrs[0].Pos()), "loop invariant on entry: "+c.Src, c.Tags)
+			}
 		}
 	}
 	// 2. dry run: which heap arrays does the body write?
@@ -271,8 +273,10 @@ func (fr *Frame) backEdge(from, to *ssa.BasicBlock, reach string, h *Heap) {
 	for i, c := range li.spec.Invariants {
 		ctx := fr.specCtx(h, to)
 		ctx.override = over
-		g := ctx.evalBool(c.Expr)
-		e.oblige(fmt.Sprintf("%s#%s:inv-keep:%d@b%d", e.topKey(), label, i+1, from.Index), "inv-keep", reach, g, fr.pos(to.Instrs[0].Pos()), "loop invariant preserved: "+c.Src, c.Tags)
+		parts := ctx.evalSplit(c.Expr)
+		for j, g := range parts {
+			e.oblige(fmt.Sprintf("%s#%s:inv-keep:%d/%d@b%d", e.topKey(), label, i+1, j+1, from.Index), "inv-keep", reach, g, fr.pos(to.Instrs[0].Pos()), "loop invariant preserved: "+c.Src, c.Tags)
+		}
 	}
 }
 
